@@ -588,3 +588,6 @@ M("opc10-push-before-queue", "C08", LL, "        if code[offs] in dis.hasjrel:\n
 # ---------------------------------------------------------------- TRUTH-1
 M("truth1-elaborate-or-prune", "C10", "_customization.py", "            replacement = elaborate(frame, next_inner)\n            if replacement is not None:  # pragma: no branch\n                return replacement\n        return PRUNE if prune else None", "            return elaborate(frame, next_inner) or (PRUNE if prune else None)\n        return PRUNE if prune else None", "TRUTH-1")
 M("truth1-engine-if-replacement", "C10", EX, "        if replacement is None:\n            continue\n", "        if not replacement and replacement != ():\n            continue\n", ["TRUTH-1"], accept_analysis_error=True)
+
+# ---------------------------------------------------------------- REG-8
+M("reg8-register-only-if-options", "C12", "_customization.py", "    @elaborate_frame.register(target, *inner_names)\n    def customize_it(frame: Frame, next_inner: object) -> Any:", "    if not (hide or hide_line or prune or elaborate):\n        return target\n\n    @elaborate_frame.register(target, *inner_names)\n    def customize_it(frame: Frame, next_inner: object) -> Any:", "REG-8")
